@@ -333,6 +333,11 @@ fn gen_members(rng: &mut Rng, sandbox: &Path) -> Vec<Member> {
         "ünï/cödé ✓.dlt".into(),
         "sp ace/we ird[1].dlt".into(),
         "./dot.dlt".into(),
+        // aliases: different member names that resolve to the same file (the later one overwrites the earlier one)
+        "dot.dlt".into(),
+        "a/./b.dlt".into(),
+        "a/c/../b.dlt".into(),
+        "inside.dlt".into(),
     ];
     let mut v = Vec::new();
     for _ in 0..n {
